@@ -198,7 +198,7 @@ func hasAmbiguousTok(toks []TokSpec) bool {
 // modelC10Paths is the model for sequences with an ambiguous token: every reading is followed;
 // a reading dies on a token mismatch or a violated mode. It reports whether some reading reaches
 // the end of input and, when exactly one does, that reading's token spans.
-func modelC10Paths(d []byte, toks []TokSpec) (accept bool, spans [][2]int) {
+func modelC10Paths(d []byte, toks []TokSpec, lastOnly ...bool) (accept bool, spans [][2]int) {
 	type path struct {
 		cur   int
 		spans [][2]int
@@ -222,7 +222,13 @@ func modelC10Paths(d []byte, toks []TokSpec) (accept bool, spans [][2]int) {
 				}
 				cur = e
 			}
-			for _, end := range matchTokAll(d, cur, ts) {
+			ends := matchTokAll(d, cur, ts)
+			if len(lastOnly) > 0 && lastOnly[0] && ts.Kind == 6 && right >= 0 && right != 2 && len(ends) > 1 {
+				// a right mode that can fail behind a two-result token: RightTrim keeps the verdict of
+				// the last reading only, so only that reading is followed (see checkC10)
+				ends = ends[len(ends)-1:]
+			}
+			for _, end := range ends {
 				sp := [2]int{cur, end}
 				c2 := end
 				if right >= 0 {
@@ -464,9 +470,14 @@ func checkC10(ci interface{}, st *Stats) error {
 	}
 	src := c.source()
 	d := normCRLF([]byte(src))
+	// a mode that can fail on the right of a two-result token: RightTrim keeps only the last
+	// reading's verdict, so what happens when an earlier reading's run violates the mode is outside
+	// the property; what remains inside it: a sequence whose last readings satisfy every mode and
+	// reach the end of input is accepted
+	failingAmb := false
 	for _, t := range c.Toks {
 		if t.Kind == 6 && t.Right >= 0 && t.Right != 2 {
-			return Discard{"a mode that can fail on the right of a two-result token (RightTrim keeps only the last reading's verdict: outside the property)"}
+			failingAmb = true
 		}
 	}
 	for _, t := range c.Toks {
@@ -514,6 +525,16 @@ func checkC10(ci interface{}, st *Stats) error {
 	}
 	if (node == nil) == (err == nil) {
 		return fmt.Errorf("Parse returned node=%v error=%v", node, err)
+	}
+	if failingAmb {
+		st.Class("two-result token under a right mode that can fail (only: the last readings' parse is accepted)")
+		if accept, _ := modelC10Paths(d, c.Toks, true); accept {
+			st.NonTrivial()
+			if err != nil {
+				return fmt.Errorf("with a two-result token under a right mode that can fail: its last reading satisfies every mode and reaches the end of input, but Parse failed: %v", err)
+			}
+		}
+		return nil
 	}
 	if hasAmbiguousTok(c.Toks) {
 		st.Class("sequence with a two-result token (all readings followed)")
@@ -699,7 +720,7 @@ func genC10(t *rapid.T) interface{} {
 		case 3:
 			ts.UseTrim = true
 		}
-		if ts.Kind == 6 && ts.Right >= 0 {
+		if ts.Kind == 6 && ts.Right >= 0 && rapid.Bool().Draw(t, "ambRightSafe") {
 			ts.Right = 2
 		}
 		if ts.Kind == 12 {
